@@ -60,17 +60,78 @@ CONF_MUT = ['directories.tokendir = \n', 'objectstore.backend = db\n', 'objectst
             'directories.tokendir = /nonexistent/dir\n', '\xff\xfe\x00garbage\n', 'objectstore.umask = -1\n', 'library.reset_on_fork = 2\n']
 
 
-def seq_files(lib, p11drv, seed, idx, codecdrv, template):
+def recover(lib, p11drv, d, env, pred, what, stats):
+    """a fresh process on the (mutated) directory d: initialise, log in, search, read, use.  -> (findings, trace)"""
+    findings = []
+    P11.EXTRA_ENV = env
+    try:
+        p = P11(p11drv, lib, reuse=d)
+    finally:
+        P11.EXTRA_ENV = {}
+    p.timeout = 90
+    died = None
+
+    def op(line):
+        nonlocal died
+        r = p.op(line)
+        if r.get('rv') in ('DIED', 'HANG') and died is None:
+            died = (line, r.get('rv'))
+        return r
+    rv = op('init').get('rv')
+    if died is None and rv == '0x0':
+        op('slots')
+        r = op('open t0 rw')
+        s = r.get('h')
+        if s and died is None:
+            op('login %s 0 %s' % (s, kstore.SO))
+            op('logout %s' % s)
+            logged = op('login %s 1 %s' % (s, kstore.USER)).get('rv') == '0x0'
+            v = None
+            if died is None:
+                v = kstore.view(p, s)
+                if not p.alive() and died is None:
+                    died = ('find / getattr of all objects', 'DIED')
+            if v and died is None:
+                for lab, (n, a) in list(v.items())[:8]:
+                    for line in ('encinit %s 0x1082:x:%s %s' % (s, '00' * 16, n), 'enc %s %s 64' % (s, '11' * 16), 'signinit %s 0x1 %s' % (s, n), 'sign %s 0102 300' % s,
+                                 'setattr %s %s 0x102=x:0a' % (s, n), 'copy %s %s 3=x:6363' % (s, n), 'objsize %s %s' % (s, n)):
+                        op(line)
+                        if died:
+                            break
+                    if died:
+                        break
+            if died is None and v is not None and pred is not None and logged and 'token.object' not in ' '.join(what) and not env:
+                stats['codec_compared'] += 1
+                m = kstore.codec_compare(pred, kstore.strip(v), strict=False)
+                if m[0]:
+                    findings.append(('K-codec on a mutated directory (%s): %s' % (', '.join(what), m[0]), len(p.trace) - 1))
+            op('fini')
+    err = p.stderr_text()
+    if died:
+        alloc = any(x in err for x in ('allocation-size-too-big', 'out-of-memory', 'bad_alloc', 'length_error'))
+        kind = 'hung' if died[1] == 'HANG' else 'died'
+        san = ''
+        if 'ERROR: AddressSanitizer' in err or 'runtime error' in err:
+            line = next((l for l in err.splitlines() if 'ERROR: AddressSanitizer' in l or 'runtime error' in l), '')
+            san = ' [' + line.strip()[:140] + ']'
+        if not (env and alloc):      # an allocation the sanitizer refuses is judged on the plain build, where it throws
+            findings.append(('the process %s on "%s" after the mutation %s%s' % (kind, died[0][:80], ', '.join(what), san), len(p.trace) - 1))
+    tr = [(l[:160], r) for l, r in p.trace]
+    p.close()
+    return findings, tr
+
+
+def seq_files(lib, liba, p11drv, seed, idx, codecdrv, template):
     rng = random.Random(seed * 49979687 + idx)
-    P11.EXTRA_ENV = asan_env()
     d = vlib.mktmp('vz-')
     findings, stats = [], {'mutations': {}, 'files_mutated': 0, 'codec_compared': 0}
+    trace = []
+    what = []
     try:
         shutil.copytree(os.path.join(template, 'tokens'), os.path.join(d, 'tokens'))
         vlib.write_conf(d)
         tokdir = [os.path.join(d, 'tokens', x) for x in os.listdir(os.path.join(d, 'tokens'))][0]
         files = sorted(f for f in os.listdir(tokdir))
-        what = []
         target_conf = rng.random() < 0.12
         if target_conf:
             with open(os.path.join(d, 'softhsm2.conf'), 'a', errors='surrogateescape') as f:
@@ -88,54 +149,28 @@ def seq_files(lib, p11drv, seed, idx, codecdrv, template):
                 stats['files_mutated'] += 1
                 what.append('%s:%s' % ('token.object' if f == 'token.object' else f[-14:], k))
         pred = kstore.codec_predict(codecdrv, os.path.join(d, 'tokens')) if not target_conf else None
-        p = P11(p11drv, lib, reuse=d)
-        p.timeout = 90
-        died = None
-
-        def op(line):
-            nonlocal died
-            r = p.op(line)
-            if r.get('rv') in ('DIED', 'HANG') and died is None:
-                died = (line, r.get('rv'))
-            return r
-        rv = op('init').get('rv')
-        if died is None and rv == '0x0':
-            op('slots')
-            r = op('open t0 rw')
-            s = r.get('h')
-            if s and died is None:
-                op('login %s 0 %s' % (s, kstore.SO))
-                op('logout %s' % s)
-                logged = op('login %s 1 %s' % (s, kstore.USER)).get('rv') == '0x0'
-                v = None
-                if died is None:
-                    v = kstore.view(p, s)
-                    if p.alive() is False and died is None:
-                        died = ('find/getattr of all objects', 'DIED')
-                if v and died is None:
-                    for lab, (n, a) in list(v.items())[:8]:
-                        for line in ('encinit %s 0x1082:x:%s %s' % (s, '00' * 16, n), 'enc %s %s 64' % (s, '11' * 16), 'signinit %s 0x1 %s' % (s, n), 'sign %s 0102 300' % s,
-                                     'setattr %s %s 0x102=x:0a' % (s, n), 'copy %s %s 3=x:6363' % (s, n), 'objsize %s %s' % (s, n)):
-                            op(line)
-                            if died:
-                                break
-                        if died:
-                            break
-                if died is None and v is not None and pred is not None and logged and 'token.object' not in ' '.join(what):
-                    stats['codec_compared'] += 1
-                    m = kstore.codec_compare(pred, kstore.strip(v))
-                    if m[0]:
-                        findings.append(('K-codec on a mutated directory (%s): %s' % (', '.join(what), m[0]), len(p.trace) - 1))
-                op('fini')
-        if died is None and not p.alive() and p.p.returncode not in (0, None):
-            died = ('(exit)', 'exit status %s' % p.p.returncode)
-        if died:
-            findings.append(('the process %s on "%s" after the mutation %s' % ('hung' if died[1] == 'HANG' else 'died (%s)' % died[1], died[0][:80], ', '.join(what)), len(p.trace) - 1))
-        p.close()
+        snapshot = {}
+        for root, _, fs in os.walk(os.path.join(d, 'tokens')):
+            for f in fs:
+                b_ = open(os.path.join(root, f), 'rb').read()
+                snapshot[f] = b_.hex() if len(b_) < 20000 else b_[:20000].hex() + '...'
+        snapshot['softhsm2.conf (without the directories line)'] = ''.join(l for l in open(os.path.join(d, 'softhsm2.conf'), errors='replace') if 'tokendir' not in l)
+        d2 = vlib.mktmp('vz-')
+        shutil.copytree(os.path.join(d, 'tokens'), os.path.join(d2, 'tokens'))
+        conf = open(os.path.join(d, 'softhsm2.conf'), errors='surrogateescape').read().replace(d, d2)
+        open(os.path.join(d2, 'softhsm2.conf'), 'w', errors='surrogateescape').write(conf)
+        try:
+            f1, trace = recover(lib, p11drv, d, {}, pred, what, stats)
+            f2, tr2 = recover(liba, p11drv, d2, asan_env(), pred, what, stats)
+            findings = f1 + [(m + ' (sanitizer build)', j) for m, j in f2]
+            if f2 and not f1:
+                trace = tr2
+        finally:
+            shutil.rmtree(d2, ignore_errors=True)
     finally:
         shutil.rmtree(d, ignore_errors=True)
-        P11.EXTRA_ENV = {}
-    return {'i': idx, 'trace': [(l[:160], r) for l, r in p.trace], 'findings': findings, 'model_dis': [], 'model_evals': stats['codec_compared'], 'stats': stats, 'what': what}
+    return {'i': idx, 'trace': trace, 'findings': findings[:2], 'model_dis': [], 'model_evals': stats['codec_compared'], 'stats': stats, 'what': what,
+            'extra': {'mutated_token_directory': snapshot} if findings else None}
 
 
 def seq_api(lib, p11drv, seed, idx, opdrv, paddrv):
@@ -159,9 +194,108 @@ def seq_api(lib, p11drv, seed, idx, opdrv, paddrv):
     finally:
         P11.EXTRA_ENV = {}
     tr = out['trace']
-    findings = []
+    findings = [(m, j) for (m, j) in out.get('findings', []) if any(x in m for x in ('beyond the buffer', 'overw', 'canary', 'OVW'))]
     for j, (l, r) in enumerate(tr):
         if r.get('rv') in ('DIED', 'HANG'):
             findings.append(('the process %s on: %s' % ('hung' if r.get('rv') == 'HANG' else 'died', l[:140]), j))
             break
     return {'i': idx, 'trace': [(l[:200], r) for l, r in tr], 'findings': findings, 'model_dis': [], 'model_evals': 0, 'stats': {'stream': which}}
+
+
+def seq_incomplete(lib, p11drv, seed, idx):
+    """keys with a missing, empty or zero component (accepted templates), then every operation that uses them"""
+    from kcrypto import RSAKEYS, be
+    rng = random.Random(seed * 32416190071 + idx)
+    P11.EXTRA_ENV = asan_env()
+    try:
+        p = P11(p11drv, lib)
+    finally:
+        P11.EXTRA_ENV = {}
+    findings = []
+    try:
+        p.op('init')
+        p.op('inittoken tfree 31323334 tok0')
+        s = p.op('open t0 rw')['h']
+        p.op('login %s 0 31323334' % s)
+        p.op('initpin %s 35363738' % s)
+        p.op('logout %s' % s)
+        p.op('login %s 1 35363738' % s)
+        k = RSAKEYS[idx % len(RSAKEYS)]
+        comp = {'0x120': 'n', '0x122': 'e', '0x123': 'd', '0x124': 'p', '0x125': 'q', '0x126': 'dp', '0x127': 'dq', '0x128': 'qinv'}
+        kind = rng.choice(['rsapriv', 'rsapriv', 'rsapub', 'ecpriv', 'ecpub', 'dsapriv', 'dhpriv', 'aes', 'generic'])
+        how = rng.choice(['drop', 'empty', 'zero', 'one', 'huge'])
+        def mut(v):
+            return {'drop': None, 'empty': '', 'zero': '00', 'one': '01', 'huge': 'ff' * 600}[how]
+        items = []
+        if kind in ('rsapriv', 'rsapub'):
+            names = list(comp) if kind == 'rsapriv' else ['0x120', '0x122']
+            victim = rng.choice(names)
+            for t in names:
+                v = be(int(k[comp[t]], 16))
+                if t == victim:
+                    v = mut(v)
+                if v is not None:
+                    items.append('%s=x:%s' % (t, v))
+            head = '0=u:3 0x100=u:0 0x108=b:1 0x105=b:1 0x107=b:1' if kind == 'rsapriv' else '0=u:2 0x100=u:0 0x104=b:1 0x10a=b:1 0x106=b:1'
+        elif kind in ('ecpriv', 'ecpub'):
+            parts = {'0x180': '06082a8648ce3d030107', ('0x11' if kind == 'ecpriv' else '0x181'): ('11' * 32 if kind == 'ecpriv' else '0441' + '04' + '22' * 64)}
+            victim = rng.choice(list(parts))
+            for t, v in parts.items():
+                if t == victim:
+                    v = mut(v)
+                if v is not None:
+                    items.append('%s=x:%s' % (t, v))
+            head = '0=u:3 0x100=u:3 0x108=b:1 0x10c=b:1' if kind == 'ecpriv' else '0=u:2 0x100=u:3 0x10a=b:1'
+        elif kind == 'dsapriv':
+            parts = {'0x130': 'c1' * 128, '0x131': 'd1' * 20, '0x132': '02', '0x11': '33' * 20}
+            victim = rng.choice(list(parts))
+            for t, v in parts.items():
+                if t == victim:
+                    v = mut(v)
+                if v is not None:
+                    items.append('%s=x:%s' % (t, v))
+            head = '0=u:3 0x100=u:1 0x108=b:1'
+        elif kind == 'dhpriv':
+            parts = {'0x130': 'c1' * 128, '0x132': '02', '0x11': '33' * 20}
+            victim = rng.choice(list(parts))
+            for t, v in parts.items():
+                if t == victim:
+                    v = mut(v)
+                if v is not None:
+                    items.append('%s=x:%s' % (t, v))
+            head = '0=u:3 0x100=u:2 0x10c=b:1'
+        else:
+            v = mut('11' * 16)
+            if v is not None:
+                items.append('0x11=x:%s' % v)
+            head = ('0=u:4 0x100=u:0x1f' if kind == 'aes' else '0=u:4 0x100=u:0x10') + ' 0x104=b:1 0x105=b:1 0x108=b:1 0x10a=b:1 0x106=b:1 0x107=b:1 0x10c=b:1'
+        r = p.op('create %s %s 1=b:%d 2=b:0 0x162=b:1 0x103=b:0 %s' % (s, head, rng.randint(0, 1), ' '.join(items)))
+        if r.get('rv') == '0x0':
+            h_ = r['h']
+            tgt = p.op('create %s 0=u:4 0x100=u:0x1f 1=b:0 2=b:0 0x11=x:%s 0x162=b:1 0x103=b:0' % (s, '77' * 16)).get('h')
+            ops = ['signinit %s 0x1 %s' % (s, h_), 'sign %s 0102 600' % s, 'signinit %s 0x40 %s' % (s, h_), 'signupd %s 0102' % s, 'signfin %s 600' % s,
+                   'signinit %s 0xd:pss:0x220:1:20 %s' % (s, h_), 'sign %s %s 600' % (s, '11' * 20),
+                   'decinit %s 0x1 %s' % (s, h_), 'dec %s %s 600' % (s, '00' * 128), 'decinit %s 0x9:oaep:0x220:1:1: %s' % (s, h_), 'dec %s %s 600' % (s, '00' * 128),
+                   'decinit %s 0x3 %s' % (s, h_), 'dec %s %s 600' % (s, '01' * 128),
+                   'verifyinit %s 0x1 %s' % (s, h_), 'verify %s 0102 %s' % (s, '00' * 128), 'encinit %s 0x1 %s' % (s, h_), 'enc %s 0102 600' % s,
+                   'encinit %s 0x3 %s' % (s, h_), 'enc %s %s 600' % (s, '01' * 128),
+                   'signinit %s 0x1041 %s' % (s, h_), 'sign %s %s 600' % (s, '11' * 32), 'verifyinit %s 0x1041 %s' % (s, h_), 'verify %s %s %s' % (s, '11' * 32, '22' * 64),
+                   'signinit %s 0x11 %s' % (s, h_), 'sign %s %s 600' % (s, '11' * 20),
+                   'derive %s 0x1050:ecdh:1:%s %s 0=u:4 0x100=u:0x10 0x161=u:16 1=b:0 2=b:0' % (s, '04' + '22' * 64, h_),
+                   'derive %s 0x21:x:%s %s 0=u:4 0x100=u:0x10 0x161=u:16 1=b:0 2=b:0' % (s, '05' * 128, h_),
+                   'encinit %s 0x1082:x:%s %s' % (s, '00' * 16, h_), 'enc %s %s 600' % (s, '11' * 16), 'signinit %s 0x251 %s' % (s, h_), 'sign %s 0102 600' % s,
+                   'signinit %s 0x108a %s' % (s, h_), 'sign %s 0102 600' % s]
+            if tgt:
+                ops += ['wrap %s 0x1 %s %s 600' % (s, h_, tgt), 'wrap %s 0x2109 %s %s 600' % (s, h_, tgt), 'unwrap %s 0x1 %s %s 0=u:4 0x100=u:0x1f 1=b:0 2=b:0' % (s, h_, '00' * 128),
+                        'wrap %s 0x2109 %s %s 2000' % (s, tgt, h_)]
+            ops += ['getattr %s %s 0x11:700 0x120:700 0x90:8' % (s, h_), 'copy %s %s 3=x:6363' % (s, h_), 'objsize %s %s' % (s, h_), 'digestinit %s 0x250' % s, 'digestkey %s %s' % (s, h_), 'digestfin %s 80' % s]
+            for line in ops:
+                r2 = p.op(line)
+                if r2.get('rv') in ('DIED', 'HANG'):
+                    err = p.stderr_text()
+                    san = next((l.strip()[:160] for l in err.splitlines() if 'ERROR: AddressSanitizer' in l or 'runtime error' in l), '')
+                    findings.append(('the process %s on "%s" with a %s key whose component was %s [%s]' % ('hung' if r2.get('rv') == 'HANG' else 'died', line[:60], kind, how, san), len(p.trace) - 1))
+                    break
+    finally:
+        p.close()
+    return {'i': idx, 'trace': [(l[:200], r) for l, r in p.trace], 'findings': findings, 'model_dis': [], 'model_evals': 0, 'stats': {}}
